@@ -95,12 +95,13 @@ func pollOrder(e *Env) {
 				os.RemoveAll(dir)
 				return
 			}
-			first.Close()
+			// first is kept open: until the churn below starts, no connection of this listener has ended
 			stopChurn := make(chan struct{})
 			var cwg sync.WaitGroup
 			cwg.Add(1)
 			go func() { // the connections that come and go
 				defer cwg.Done()
+				time.Sleep(3 * time.Millisecond) // the first disconnection happens while the others have a backlog
 				for k := 0; ; k++ {
 					select {
 					case <-stopChurn:
@@ -112,7 +113,7 @@ func pollOrder(e *Env) {
 						return
 					}
 					c.Ping()
-					if k%2 == 0 {
+					if k%2 == 1 {
 						req, res := []byte{200, byte(k), 0}, []byte(nil)
 						c.Call("Ord.Do", &req, &res)
 					}
@@ -180,12 +181,16 @@ func pollOrder(e *Env) {
 			wg.Wait()
 			close(stopChurn)
 			cwg.Wait()
+			first.Close()
 			srv.Close()
 			os.RemoveAll(dir)
 			// per-connection execution order and overlap
 			svc.mu.Lock()
 			log := append([]ordEvent(nil), svc.log...)
 			svc.mu.Unlock()
+			if os_getenv("VERIF_DEBUG") != "" {
+				fmt.Fprintf(os.Stderr, "pollOrder %v: %v\n", desc, log)
+			}
 			for ci := 0; ci < nconn; ci++ {
 				running, next := -1, 0
 				var order []int
